@@ -35,6 +35,7 @@ func showMeta(m interface{}) string {
 }
 
 func showPage(p pgdump.IndexPageInfo) string {
+	// flag names compared as a set (sorted); their emission order is compared with the model by family idxflagorder
 	names := append([]string(nil), p.FlagStrings...)
 	sort.Strings(names)
 	return fmt.Sprintf("%d:%d:%s:%d:%s:%s%s%s%s:%d:%d:%d:%d:%d:%d:%d:%s", p.PageNumber, int(p.IndexType), p.TypeString, p.Flags,
@@ -63,6 +64,19 @@ func init() {
 	for _, f := range []string{"idxfile", "idxflags", "idxcycle", "idxmeta", "idxmal"} {
 		core.Register(f, whole)
 	}
+	// idxflagorder: args = file; the flag word and the flag names of every page in the order the tool emits them
+	// (the Spec-checked families compare the names as a set: their order is not part of the property)
+	core.Register("idxflagorder", func(args []string) string {
+		info, err := pgdump.ParseIndexFile(unhex(args[0]))
+		if err != nil {
+			return "ERR"
+		}
+		pages := make([]string, len(info.Pages))
+		for i, p := range info.Pages {
+			pages[i] = fmt.Sprintf("%d:%s", p.Flags, strings.Join(p.FlagStrings, "+"))
+		}
+		return strings.Join(pages, ";")
+	})
 	// idxmut: malformed index files; ParseIndexFile must return (C10)
 	core.Register("idxmut", func(args []string) string {
 		pgdump.ParseIndexFile(unhex(args[0]))
